@@ -5,8 +5,8 @@
    grammar's reading of the body, [handle] the code's response and the documents that
    reach the store, [store_ok] which indexes accept their batch.  [handle_prefix] is
    the code before the fix. *)
-From SigM Require Import Base Bulk.
-From SigP Require Import BaseProofs BulkProofs.
+From SigM Require Import Base Bulk BulkPool.
+From SigP Require Import BaseProofs BulkProofs BulkPoolProofs.
 Open Scope N_scope.
 
 (* ---- one item per action, in request order: the items are, position by position,
@@ -121,3 +121,72 @@ Theorem C15_prefix_failure_is_local_refuted : exists b i a st,
   nth_error (r_items (handle_prefix all_ok b)) i = Some st /\ st <> expected_status a.
 Proof. exact prefix_failure_is_local_refuted. Qed.
 Print Assumptions C15_prefix_failure_is_local_refuted.
+
+(* ---- a bulk request does not run alone: the process serves Splunk HEC, Loki, OTLP logs,
+   single-document and other bulk requests before it, and all of them take their
+   ParsedLogEvent objects from one process-wide pool (SigM.BulkPool).  [h] ranges over ALL
+   histories of requests (any documents, accepted or failing, any release lists, any pool
+   order, garbage collections in between); [disciplined] = no request puts an object of
+   its array back twice; [handle_after h] = HandleBulkBody after [h]. ---- *)
+
+(* the pool never holds an object twice *)
+Theorem C15_pool_discipline_invariant : forall h,
+  forallb disciplined_ev h = true -> pool_ok (run_hist p_init h).
+Proof. exact pool_discipline_invariant. Qed.
+Print Assumptions C15_pool_discipline_invariant.
+
+(* every request of any protocol hands the store exactly the documents it accepted *)
+Theorem C15_request_stores_its_documents : forall h q,
+  forallb disciplined_ev h = true ->
+  fst (run_req (run_hist p_init h) q) = q_accepted q.
+Proof. exact request_stores_its_documents. Qed.
+Print Assumptions C15_request_stores_its_documents.
+
+(* the entry points of the unchanged code are disciplined *)
+Theorem C15_entry_points_disciplined : forall p ds, disciplined (preq p ds) = true.
+Proof. exact preq_disciplined. Qed.
+Print Assumptions C15_entry_points_disciplined.
+
+(* the documents the pooled bulk request keeps an object for are the loop's allPLEs *)
+Theorem C15_bulk_gets_are_allPLEs : forall b, q_accepted (bulk_ireq b) = ples (loop b init).
+Proof. exact bulk_gets_are_allPLEs. Qed.
+Print Assumptions C15_bulk_gets_are_allPLEs.
+
+(* what ran before does not change what a bulk request acknowledges and stores *)
+Theorem C15_bulk_outcome_independent_of_history : forall h so b,
+  forallb disciplined_ev h = true -> handle_after h so b = handle so b.
+Proof. exact bulk_outcome_independent_of_history. Qed.
+Print Assumptions C15_bulk_outcome_independent_of_history.
+
+(* created iff stored exactly once, after any such history.  Full statement (FALSE, see
+   _refuted): the same without the [disciplined_ev] hypothesis. *)
+Theorem C15_created_iff_stored_after_history_guarded : forall h so b,
+  forallb disciplined_ev h = true ->
+  stores_ok so (actions (body_lines b)) = true ->
+  NoDup (flat_map act_doc (actions (body_lines b))) ->
+  forall i a st,
+    nth_error (actions (body_lines b)) i = Some a ->
+    nth_error (r_items (handle_after h so b)) i = Some st ->
+    (st = 201 -> exists k, act_doc a = [k] /\ count_occ key_dec (r_stored (handle_after h so b)) k = 1%nat) /\
+    (st <> 201 -> forall k, In k (act_doc a) -> count_occ key_dec (r_stored (handle_after h so b)) k = 0%nat).
+Proof. exact created_iff_stored_after_history. Qed.
+Print Assumptions C15_created_iff_stored_after_history_guarded.
+
+(* one earlier request that releases its object twice: both items 201, errors=false, the
+   first document is never stored and the second one twice *)
+Theorem C15_created_iff_stored_after_history_refuted : exists h b k1 k2,
+  NoDup (flat_map act_doc (actions (body_lines b))) /\
+  r_items (handle_after h all_ok b) = [201; 201] /\
+  r_errors (handle_after h all_ok b) = false /\
+  In k1 (flat_map act_doc (actions (body_lines b))) /\
+  count_occ key_dec (r_stored (handle_after h all_ok b)) k1 = 0%nat /\
+  count_occ key_dec (r_stored (handle_after h all_ok b)) k2 = 2%nat.
+Proof. exact double_release_refuted. Qed.
+Print Assumptions C15_created_iff_stored_after_history_refuted.
+
+(* the guard is satisfiable: every entry point, failing documents and a collection *)
+Example C15_guard_disciplined_satisfiable :
+  forallb disciplined_ev h_mixed = true /\
+  p_free (run_hist p_init h_mixed) = [9%N] /\
+  r_stored (handle_after h_mixed all_ok w_good) = [(1, 1); (2, 2)].
+Proof. vm_compute. repeat split; reflexivity. Qed.
